@@ -189,6 +189,14 @@ const GARBAGE: &[&str] = &[
     "a:b@1.0.0-", "a:b@1..0", "é", "a\u{e9}", "x:y@1.2.3+b.c-d", "->>", "-->", "./.", "....", "@1.2.3", "a/b",
 ];
 
+/// Block comments (terminated and not) whose openers / closers are adjacent to `/` and `*`.
+const COMMENT_EDGES: &[&str] = &[
+    "/* outer /*/ inner */ still outer */", "/* outer /*/ inner */", "/*/ */", "/*/", "/**/", "/***/", "/****/", "/*/*/",
+    "/*/**/*/", "/*/*/*/ x */*/*/", "/* */*", "/* a */*/", "/* /* */ */", "/* /* */", "/* **/", "/* //*/", "/* //*/ */ */",
+    "/* *//* */", "/** /*/ x */ d */", "/** d **/", "/*** d ***/", "/*/*/ */ */", "/* * / */", "/* /", "/* *", "/*/* */ *", "*/",
+    "/* a /* b /* c */ d */ e */", "/* a /* b /* c */ d */ e", "/*\n/*/\n*/\n*/", "// /*\n", "// */\n", "/* // */", "/* \" */", "\"/* not a comment\"",
+];
+
 struct Gen<'a> {
     r: &'a mut Rng,
     out: Vec<String>,
@@ -763,23 +771,50 @@ fn comment_text(r: &mut Rng) -> String {
     (*r.pick(&["note", "a b c", "caf\u{e9}", "\u{65e5}\u{672c}\u{8a9e}", "x \"y\" z", "* star", "/ slash", "", "tab\there", "\u{1f600}"])).to_string()
 }
 
+/// Balanced comment pieces whose openers / closers touch `/` and `*` characters.
+const TRICKY_NESTED: &[&str] = &[
+    "/*/ n */", "/**/", "/***/", "/*/**/*/", "/*/*/ x */*/", "/* **/", "/*/ */", "/****/", "/* /*/ i */ o */",
+    "/*//*/ y */ */", "/* * / */", "/*/*/*/ z */*/*/",
+];
+
+/// Append a piece without forming an accidental `/*` or `*/` at the seam.
+fn push_piece(s: &mut String, piece: &str) {
+    if (s.ends_with('*') && piece.starts_with('/')) || (s.ends_with('/') && piece.starts_with('*')) {
+        s.push(' ');
+    }
+    s.push_str(piece);
+}
+
 fn block_comment(r: &mut Rng, depth: u32, doc: bool) -> String {
     let mut s = String::from(if doc { "/** " } else { "/*" });
     if !doc && r.chance(1, 6) {
-        return "/**/".into();
+        return (*r.pick(&["/**/", "/***/", "/*/ */", "/* **/", "/*/**/*/"][..])).to_string();
+    }
+    if !doc && r.chance(1, 8) {
+        s.push('/'); // `/*/`: the slash after the opener does not close anything
+        s.push(' ');
     }
     for _ in 0..r.below(3) {
-        match r.below(5) {
-            0 if depth > 0 => s.push_str(&block_comment(r, depth - 1, false)),
+        match r.below(7) {
+            0 if depth > 0 => {
+                let inner = block_comment(r, depth - 1, false);
+                push_piece(&mut s, &inner)
+            }
             1 => s.push('\n'),
             2 => s.push_str(" // "),
+            3 => push_piece(&mut s, *r.pick(TRICKY_NESTED)),
+            4 => push_piece(&mut s, *r.pick(&["**", " * ", "/ ", " /", "*"][..])),
             _ => {
                 s.push(' ');
                 s.push_str(&comment_text(r));
             }
         }
     }
-    if r.chance(1, 2) {
+    // never let generated text form an accidental `/*` or `*/` with what follows
+    if s.ends_with('/') || s.ends_with('*') && r.chance(1, 2) {
+        s.push(' ');
+    }
+    if r.chance(1, 2) && !s.ends_with('/') {
         s.push(' ');
     }
     s.push_str("*/");
@@ -1005,7 +1040,7 @@ fn mutate(sink: &mut Sink, r: &mut Rng, origin: &str, d: &Doc, b: &Budget, injec
     *inject_ix += 1;
     let cpc = char::from_u32(cp).unwrap();
     let strings: Vec<usize> = (0..n).filter(|i| d.toks[*i].starts_with('"') && d.toks[*i].len() >= 2).collect();
-    match r.below(4) {
+    match ((*inject_ix - 1) / fp.len() + (*inject_ix - 1)) % 4 {
         // inside a comment or a string the code point is harmless to the token rules: only the screening rejects it
         0 | 1 => {
             let i = r.below(n as u64 + 1) as usize;
@@ -1119,6 +1154,15 @@ fn main() {
     {
         sink.lex(&format!("edge:{}", i), s);
         sink.doc(&format!("edge:{}", i), s);
+    }
+    for (i, c) in COMMENT_EDGES.iter().enumerate() {
+        for (j, s) in [format!("{} package a:b;", c), format!("package a:b; {} let x = y;", c), format!("package a:b; let x = y; {}", c)]
+            .iter()
+            .enumerate()
+        {
+            sink.lex(&format!("comment-edge:{}:{}", i, j), s);
+            sink.doc(&format!("comment-edge:{}:{}", i, j), s);
+        }
     }
     // every .wac file of the repository
     let mut files = Vec::new();
